@@ -161,6 +161,31 @@ func (r *Run) libCall(st *State, fr *Frame, name string, recv Val, args []Val, s
 		r.ctxNever(st, c)
 		st.assume(Eq(r.ctxValues(c), r.ctxValues(p)))
 		return ret(c)
+	case "context.AfterFunc":
+		// the hook runs in its own goroutine once ctx is cancelled (possibly immediately)
+		ctx := e.asTerm(args[0], SAny)
+		var hook T
+		switch f := args[1].(type) {
+		case *Closure:
+			r.shareClosure(st, f, "AfterFunc")
+			hook = f.Term
+		default:
+			hook = e.asTerm(args[1], SFn)
+		}
+		for _, o := range st.Fresh {
+			st.Escaped[o.S] = true
+		}
+		stop := e.freshConst("stopfn", SFn)
+		st.assume(Not(Eq(stop, NilOf(SFn))))
+		r.assumeFreshTerm(st, stop)
+		e.methods[stop.S] = &BoundMethod{Name: "context.afterFuncStop", Recv: hook, Term: stop}
+		e.regionWrite1(st, "cnt.calls", SInt, stop, IntLit(0))
+		st.Ghost["afterfunc:"+stop.S] = &TupleV{V: []Val{ctx, hook}}
+		k := "afterfuncs"
+		st.Counters[k] = App(SInt, "+", r.counter(st, k), IntLit(1))
+		return ret(stop)
+	case "context.afterFuncStop":
+		return ret(e.freshConst("stopped", SBool))
 	// ---------------------------------------------------------------- time
 	case "time.Now":
 		return ret(e.freshVal(st, sig.Results().At(0).Type(), "now"))
